@@ -22,7 +22,7 @@ INFO = {
     ],
     "stubs": [],
 }
-BUDGET = {"quick": 240, "thorough": 1500}
+BUDGET = {"quick": 240, "thorough": 1100}
 
 SKIP = {"EnvironmentVariable.in"}
 
